@@ -894,6 +894,9 @@ func c17(r *core.Run) {
 			}
 		}
 	})
+
+	// ---------------- D5 the wheel's key→timer index behaves as a map (c17_safemap.go) ----------------
+	c17SafeMap(r)
 }
 
 // lookupKeyOf returns the key of the (single) comma-ok lookup in Cache.data of f.
